@@ -580,7 +580,7 @@ func C08Random(r *rand.Rand) C08Case {
 			var d Deviation
 			d.Module = m
 			switch {
-			case len(tgts) == 0 || g.chance(0.03):
+			case len(tgts) == 0 || g.chance(0.01):
 				d.Arg, d.Missing = "/"+imports[0][1]+":nosuch", true
 				d.Stmts = []DevStmt{NewDevStmt(g.pick([]string{"add", "not-supported", "delete"}))}
 			default:
@@ -606,7 +606,7 @@ func C08Random(r *rand.Rand) C08Case {
 
 func (g *genr) c08Stmt(kw string, n *Node) DevStmt {
 	kind := g.pick([]string{"add", "replace", "delete", "add", "replace", "delete", "add", "replace", "delete", "not-supported"})
-	if g.chance(0.015) {
+	if g.chance(0.005) {
 		kind = "bogus"
 	}
 	s := NewDevStmt(kind)
@@ -618,7 +618,7 @@ func (g *genr) c08Stmt(kw string, n *Node) DevStmt {
 	for j := 0; j < np; j++ {
 		var p string
 		switch {
-		case g.chance(0.08):
+		case g.chance(0.02):
 			p = g.pick(c08Props)
 		case kw == "list":
 			p = g.pick([]string{"min-elements", "max-elements", "config"})
@@ -648,7 +648,15 @@ func (g *genr) c08Stmt(kw string, n *Node) DevStmt {
 		case "type":
 			v = g.pick(leafTypes)
 		}
-		if fit && j == 0 && p != "units" && p != "type" {
+		if fit && j == 0 && (p == "units" || p == "type") {
+			// the schema tree records no units of its own; a leaf always has a type
+			if p == "type" && (kw == "leaf" || kw == "leaf-list") {
+				kind = "replace"
+			} else {
+				kind = "add"
+			}
+			s.Kind = kind
+		} else if fit && j == 0 {
 			// the first property decides the kind: delete what is there (with its value), add what is not
 			cur, present := n.kid(p)
 			if p == "min-elements" && cur == "0" || p == "max-elements" && cur == "unbounded" {
